@@ -6,6 +6,7 @@ MUT = {"add", "prepend", "drain", "remove", "addbuf", "prependbuf", "rmbuf", "re
        "addref", "addbufref", "addfile", "pullup", "freeze", "unfreeze"}
 CB = {"cbadd", "cbdel", "cbflag"}
 SMALL = {"add", "drain", "rmbuf", "addbuf", "readln", "prepend"}
+SMALLQ = {"add", "drain", "rmbuf", "addbuf"}
 
 
 def nodefer_key(h, k, msg):
@@ -18,11 +19,11 @@ def run(tier, seed):
     q = tier == "quick"
     gen = [
         # immediate delivery: every history of 3 calls over callbacks + a small mutator family
-        dict(name="C13_exh_imm", consts=ec.consts(SMALL | CB | {"nodefer"}, 3, wa=37, wb=1021, data=("a", "bLa"), nsel=(1, 9), cbmode=1),
-             stride=8 if q else 1),
+        dict(name="C13_exh_imm", consts=ec.consts((SMALLQ if q else SMALL) | CB | {"nodefer"}, 3, wa=37, wb=1021, data=("bLa",) if q else ("a", "bLa"), nsel=(1, 9), cbmode=1),
+             stride=2 if q else 1),
         # deferred delivery (event_base + event_base_loop(NONBLOCK))
-        dict(name="C13_exh_def", consts=ec.consts(SMALL | CB | {"loop"}, 3, wa=37, wb=1021, data=("a", "bLa"), nsel=(1, 9), cbmode=2),
-             stride=8 if q else 1),
+        dict(name="C13_exh_def", consts=ec.consts((SMALLQ if q else SMALL) | CB | {"loop"}, 3, wa=37, wb=1021, data=("bLa",) if q else ("a", "bLa"), nsel=(1, 9), cbmode=2),
+             stride=2 if q else 1),
         # one callback installed, then every 3-call history of moves (callbacks really fire in every history)
         # multi-chain start (3 forced adds), then every 2-call history: a callback installed on a buffer whose data spans chains
         dict(name="C13_warm_moves", consts=ec.consts({"add", "drain", "rmbuf", "addbuf", "cbadd"}, 5, wa=509, wb=2048,
@@ -48,7 +49,7 @@ def run(tier, seed):
         "mc": [("C13_mc_imm", ec.consts((SMALL if q else MUT) | CB | {"nodefer"}, 3, wa=2, wb=3, data=("a", "aCL"), nsel=(1, 9), sizes=(0,), cbmode=1)),
                ("C13_mc_def", ec.consts((SMALL if q else MUT) | CB | {"loop"}, 3, wa=2, wb=3, data=("a", "aCL"), nsel=(1, 9), sizes=(0,), cbmode=2))],
         "gen": gen,
-        "need_ops": ["cbadd", "cbdel", "cbflag", "loop", "add", "drain", "rmbuf", "readln"],
+        "need_ops": ["cbadd", "cbdel", "cbflag", "loop", "add", "drain", "rmbuf", "readln", "addbuf"],
         "rule": "Up to 2 callbacks per buffer (2 buffers), added/removed/enabled/disabled (and NODEFER-flagged) at any point; "
                 "every evbuffer_cb_info (orig_size, n_added, n_deleted) of every invocation, in invocation order, is compared "
                 "with the specification after every call, for immediate delivery and for deferred delivery through a real "
